@@ -377,7 +377,7 @@ func c02(c *fw.Ctx) {
 	// C40 / Text end of data with multi-value characters: k native characters, then every tail of
 	// up to 4 (thorough: 6) characters over one representative per value count (1 value: native
 	// letter, digit; 2: the other letter case, '!'; 3: 0xEC, 0xA0 = upper shift + basic; 4: 0xE0 =
-	// upper shift + shift 3).  The encoder gives characters back at the end so that no single
+	// upper shift + shift 3, 0x85 = upper shift + shift 1).  The encoder gives characters back at the end so that no single
 	// value is left over; how many depends on k mod 3, on the tail and on the symbol boundary.
 	tailLen := c.Pick(4, 6)
 	for fam := 0; fam < 2; fam++ {
@@ -390,7 +390,7 @@ func c02(c *fw.Ctx) {
 					native, other = 'A', 'a'
 					class = "c40-eod-shift-tails"
 				}
-				alpha := []rune{rune(native), '1', rune(other), '!', 0xEC, 0xA0, 0xE0}
+				alpha := []rune{rune(native), '1', rune(other), '!', 0xEC, 0xA0, 0xE0, 0x85}
 				body := make([]rune, k)
 				for i := range body {
 					body[i] = rune(native) + rune(r.Rng.Intn(26))
@@ -530,6 +530,27 @@ func c02(c *fw.Ctx) {
 		}
 		c02One(r, dmOpts{text: "abcdefghijkl", shape: 2, max: &[2]int{8, 18}}, "too-long")
 	})
+	// reading order: a rectangular symbol and directly afterwards the square symbol of the same
+	// width (and the other way round) - what the decoder learned from one symbol must not be
+	// applied to the next
+	c.Run("rect-then-square", func(r *fw.Rec) {
+		rng := r.Rng
+		syms := dmref.Symbols()
+		for _, a := range syms {
+			for _, b := range syms {
+				if a.Rect == b.Rect || (a.Cols != b.Cols && a.Rows != b.Rows && a.Cols != b.Rows) {
+					continue
+				}
+				for _, s := range []dmref.Symbol{a, b} {
+					o := dmOpts{text: digitsN(rng, 2*s.DataCW-rng.Intn(2)), shape: shapeOf(s)}
+					if !c02One(r, o, "rect-then-square") {
+						return
+					}
+				}
+			}
+		}
+	})
+	c.Floor("class_rect-then-square", 40)
 	// Latin-1 text whose bytes look like something else to a decoder that sniffs: byte order
 	// marks (EF BB BF = "\u00ef\u00bb\u00bf", FE FF, FF FE), UTF-8-looking pairs, at the start of the
 	// message, of a Base 256 run inside it, and inside a macro envelope
